@@ -882,6 +882,9 @@ def treatClass (now : Int) (st : RState) (idealFinal : JState) (r : JRec) (t : T
       if r.eflag &&& 0x4440 ≠ h.eflag &&& 0x4440 ∨ off then some .updateWithinTolerance else none
   | .notAdmitted => some .notAdmitted
   | .levelRefused => some .levelRefused
+  | .unlockNoHold =>
+    -- the UNLOCK record of a hold whose LOCK record was filtered: the value frame it carries is not applied
+    if r.data.isSome then some .valueOfEndedHoldLost else none
   | _ => none
 
 /-- Per key: the first harmful treatment (a lost value only when nothing else happened to the key). -/
